@@ -23,7 +23,8 @@ def gen(tier, rng, shard, nshards):
                "m": S.pick(rng, ["1", "2", "n//2", "n-1", "n", "n+3", "n+10", "default"]),
                "tol": float(S.pick(rng, [1e-12, 1e-12, 1e-8, 1e-5, 0.0])), "fn": S.pick(rng, ["arnoldi", "arnoldi", "arnoldi", "arnoldi_eigs", "Arnoldi()"]),
                "real_start": bool(rng.random() < 0.3), "wide_start": bool(rng.random() < 0.25), "opscale": float(S.pick(rng, [1.0, 1.0, 1.0, 1e-9, 1e9])),
-               "vscale": float(S.pick(rng, [1.0, 1.0, 1.0, 1e-12, 1e-30, 1e-9, 1e15]))}
+               "vscale": float(S.pick(rng, [1.0, 1.0, 1.0, 1e-12, 1e-30, 1e-9, 1e15])),
+               "near_inv": bool(rng.random() < 0.3), "narrow_op": bool(rng.random() < 0.25)}
 
 
 def min_rel_residual(M, v, m):
@@ -173,6 +174,25 @@ def run_case(ctx, case):
     if np.linalg.cond(M) > 1e2:
         ctx.note("skipped_out_of_regime_cond")
         return
+    perturbed = False
+    if case.get("near_inv") and case["rhs"] in ("eigvec", "few-eigvecs") and degree is not None and n > 2:
+        # a start vector that is only *nearly* inside an invariant subspace: after `degree` steps the new direction is small
+        # (1e-9 relative) but real - not a breakdown for any tolerance below that
+        g_ = P.rng_for("c15near", case["seed"]).standard_normal(n) + (1j * P.rng_for("c15near2", case["seed"]).standard_normal(n) if cplx else 0)
+        b = (b + 1e-9 * np.linalg.norm(b) * g_ / np.linalg.norm(g_)).astype(b.dtype)
+        degree = None
+        perturbed = True
+        ctx.count("start_vector_class", "nearly-invariant")
+    if case.get("narrow_op") and case["start"] != "default":
+        # an operator stored in single precision with a double-precision start vector: the factorisation runs in the promoted
+        # (double) precision on the operator's single-precision *values*
+        M32 = M.astype(np.complex64 if cplx else np.float32)
+        M = M32.astype(M.dtype)
+        if case["rhs"] != "generic":
+            degree, perturbed = None, True  # (the start vector was built from eigenvectors of the unrounded matrix)
+        ctx.count("operator_storage", "single-precision-values")
+    else:
+        M32 = None
     vs = float(case.get("vscale", 1.0))
     if vs != 1.0:
         b = (b * vs).astype(b.dtype)  # the factorisation depends on the direction of the start vector only, not on its length
@@ -181,7 +201,7 @@ def run_case(ctx, case):
     ctx.begin_case(case, sig="|".join(f"{k}={case[k]}" for k in ("n", "dt", "normal", "rhs", "start", "m", "tol", "fn")), nontrivial=True)
     for key in ("rhs", "start", "m", "fn"):
         ctx.count(key, case[key])
-    A = cola.ops.Dense(M)
+    A = cola.ops.Dense(M if M32 is None else M32)
     preds = {"start": case["start"], "rhs": case["rhs"], "complex": cplx, "fn": case["fn"],
              "m_class": "default" if m_req is None else ("m<n" if m_req < n else ("m=n" if m_req == n else "m>n"))}
     kw = {"tol": case["tol"]}
@@ -218,7 +238,9 @@ def run_case(ctx, case):
         vals, V, _ = out
         vals = np.asarray(vals).astype(complex)
         Vd = np.asarray(V.to_dense()).astype(complex)
-        if m_used >= n and degree is None and case["tol"] <= 1e-8:
+        # (a start vector that is nearly inside an invariant subspace makes the full-run spectrum ill conditioned: the directions
+        # beyond the subspace are normalised from 1e-9-sized vectors)
+        if m_used >= n and degree is None and case["tol"] <= 1e-8 and not perturbed:
             ref = np.linalg.eigvals(M.astype(complex))
             # multiset match of the spectrum, no spurious values from padding
             ok = len(vals) == n
